@@ -868,6 +868,7 @@ func init() {
 	jb := mon.Kind(p, "bin", c09JudgeBin)
 	jd := mon.Kind(p, "json", c09JudgeDoc)
 	jdirect := mon.Kind(p, "json-direct", c09JudgeDirect)
+	jchain := mon.Kind(p, "chain", c09JudgeChain)
 
 	const genericCap = 16 << 20 // bytes the current decoder may be asked for in the generic phases
 
@@ -1369,6 +1370,20 @@ func init() {
 				}
 			}
 		}
+		c.Phase("destinations-with-history") // one Input / Output / Tx / Txs object receives several documents and byte strings in a row, through different decoders
+		{
+			nb := 6
+			if c.Thorough {
+				nb = 16
+			}
+			var cbase []*c09Base
+			for _, cb := range c09Corpus(c.Seed+77, 14) {
+				if len(cb.b) <= 2000 && len(cbase) < nb {
+					cbase = append(cbase, cb)
+				}
+			}
+			c09RunChains(c, jchain, cbase)
+		}
 		c.Phase("json-hex")
 		for i, cb := range corpus {
 			if !c.Case(uint64(i)) {
@@ -1468,6 +1483,12 @@ func init() {
 	}
 
 	p.Floor = func(a *mon.Agg) string {
+		for _, k := range []string{"chain:Input<-json:value", "chain:Input<-bin:value", "chain:Input<-bin-ext:value", "chain:Input<-bin:error", "chain:Output<-json-node:value", "chain:Output<-bin:value",
+			"chain:Tx<-json:value", "chain:Tx<-json-node:value", "chain:Tx<-bin:value", "chain:Tx<-bin:error", "chain:Txs<-json:value", "chain:Txs<-json-node:value", "chain:Txs<-bin:value", "chain:consumed-within-bounds"} {
+			if a.Cov[k] == 0 {
+				return "counter " + k + " is zero"
+			}
+		}
 		for _, e := range c09BinEntries {
 			for _, cls := range []string{"valid", "prefix", "bitflip", "claim", "short-varint", "random", "claim-big"} {
 				if a.Cov["bin:"+e.name+":"+cls] == 0 {
